@@ -36,6 +36,32 @@ class BudgetExceeded(EngineSignal):
 import os
 SLOWQ = float(os.environ.get("PYSYM_SLOWQ", "0") or 0)
 FORKSITES = {} if os.environ.get("PYSYM_FORKSITES") else None
+# fraction of the obligation queries that is re-decided by cvc5 (second opinion); set per tier by the runner
+XCHECK = {"rate": float(os.environ.get("PYSYM_XCHECK", "-1")), "timeout_ms": 4000}
+
+
+def cvc5_decide(smt2, timeout_ms):
+    """re-decides an exported SMT-LIB2 benchmark with the cvc5 python API; returns 'sat' | 'unsat' | 'unknown'"""
+    import cvc5
+    slv = cvc5.Solver()
+    slv.setOption("tlimit-per", str(timeout_ms))
+    slv.setLogic("ALL")
+    ip = cvc5.InputParser(slv)
+    ip.setStringInput(cvc5.InputLanguage.SMT_LIB_2_6, smt2, "obligation")
+    sm = ip.getSymbolManager()
+    verdict = "unknown"
+    while True:
+        cmd = ip.nextCommand()
+        if cmd.isNull():
+            break
+        if cmd.getCommandName() == "set-logic":
+            continue
+        out = cmd.invoke(slv, sm).strip()
+        if "(error" in out:
+            return "unknown"
+        if cmd.getCommandName() == "check-sat":
+            verdict = out if out in ("sat", "unsat") else "unknown"
+    return verdict
 
 
 def _site(tag, n):
@@ -79,7 +105,7 @@ def z3val(model, term):
 class PathResult:
     __slots__ = ("decisions", "pending", "status", "violations", "covers", "obligations", "discharged",
                  "queries", "solver_s", "assumes", "observations", "witness", "knowns", "error", "unwind_hits",
-                 "notes", "unknowns")
+                 "notes", "unknowns", "xchecked", "xagree", "xunknown")
 
     def __init__(self):
         self.decisions = []
@@ -99,6 +125,9 @@ class PathResult:
         self.unwind_hits = 0
         self.notes = []
         self.unknowns = 0
+        self.xchecked = 0        # obligations re-decided by cvc5
+        self.xagree = 0
+        self.xunknown = 0
 
 
 class Engine:
@@ -275,6 +304,33 @@ class Engine:
         if r != z3.sat:
             return None
         return self.solver.model()
+
+    def second_opinion(self, label, negated, verdict):
+        """a deterministic sample of the obligation queries (path condition AND NOT property) is exported as SMT-LIB2
+        and re-decided by cvc5; a contradiction between the two solvers is a harness error, never a pass"""
+        rate = XCHECK["rate"]
+        if rate <= 0:
+            return
+        import zlib as _z
+        h = _z.crc32(("%s|%s" % (label, self.trace)).encode()) / 0xffffffff
+        if h >= rate:
+            return
+        s2 = z3.Solver()
+        s2.add(*self.pc)
+        s2.add(negated)
+        try:
+            other = cvc5_decide(s2.to_smt2(), XCHECK["timeout_ms"])
+        except Exception as x:      # parser limitations count as "not compared"
+            other = "unknown"
+        self.res.xchecked += 1
+        if other == "unknown":
+            self.res.xunknown += 1
+        elif other == verdict:
+            self.res.xagree += 1
+        else:
+            self.res.status = "error"
+            self.res.error = "solver disagreement on obligation %s: z3 says %s, cvc5 says %s" % (label, verdict, other)
+            raise Unmodelled(self.res.error)
 
 
 def path_stats_merge(total, r):
